@@ -631,8 +631,8 @@ def only_ties(rel, A, B, W, H, fmt):
         return False
     n, y, fn = rel.split(os.sep)
     x = fn.split(".")[0].split("_")[1]
-    t = toast.create_single_tile(Pos(int(n), int(x), int(y)), coordsys=CS.PLANETARY)
-    lon, lat = toast.toast_tile_get_coords(t)
+    import corr_C06
+    lon, lat = corr_C06.expected_coords(CS.PLANETARY, (int(n), int(x), int(y)))     # handles the level-0 tile
     gx = (((lon + np.pi) % (2 * np.pi)) / (2 * np.pi)) * W - 0.5
     gy = ((HALFPI - lat) / np.pi) * H - 0.5
     tie = (np.abs(gx - np.floor(gx) - 0.5) < 1e-9) | (np.abs(gy - np.floor(gy) - 0.5) < 1e-9)
@@ -664,6 +664,8 @@ def part_C(rng, tier, V, replay=None):
         else:
             depth = 2 if nc * nr <= 2 else 1
         specs.append((W, H, rand_split(rng, W, nc), rand_split(rng, H, nr), rng.choice(("f32", "rgb")), depth))
+    # chunk-by-chunk sampling of the whole-sphere tile (depth 0)
+    specs.append((24, 12, rand_split(rng, 24, 3), rand_split(rng, 12, 2), "f32", 0))
     if replay is not None:
         specs.insert(0, (replay["W"], replay["H"], replay["cols"], replay["rows"], replay["mode"], replay["depth"]))
     for gi, (W, H, cols, rows, mode, depth) in enumerate(specs):
@@ -989,7 +991,10 @@ def part_E(rng, tier, V, replay=None):
     from toasty.toast import ToastCoordinateSystem as CS
     work = common.workdir()
     boxes = [((0.3, 1.2, -0.4, 0.9), 2, "astronomical"), ((6.0, 6.9, -1.5, -1.2), 3, "planetary"),
-             ((-0.2, 0.1, 1.2, HALFPI), 2, "astronomical"), ((2.0, 9.5, -0.1, 0.1), 2, "planetary")]
+             ((-0.2, 0.1, 1.2, HALFPI), 2, "astronomical"), ((2.0, 9.5, -0.1, 0.1), 2, "planetary"),
+             # the whole-sphere tile (depth 0: its grid is built by the sampler itself) and depth 1, both systems
+             ((0.3, 1.2, -0.4, 0.9), 0, "planetary"), ((2.0, 9.5, -0.1, 0.1), 0, "astronomical"),
+             ((6.0, 6.9, -1.5, -1.2), 1, "planetary")]
     n = 2 if tier == "quick" else 14
     for _ in range(n):
         lo = rng.uniform(-10, 10)
